@@ -40,6 +40,7 @@ package main
 //	stat <name> <n>
 //	end
 import (
+	"errors"
 	"bufio"
 	"bytes"
 	"encoding/gob"
@@ -69,7 +70,11 @@ type lockedStore struct {
 	// microseconds of real time before they touch the records (before taking the store's mutex), and LoadSession
 	// again before it returns
 	delayPermille, delayMaxUs int
+	// a store that sometimes fails: with probability saveFailPermille/1000 SaveSession returns an error and writes nothing
+	saveFailPermille int
 }
+
+var errInjectedSave = errors.New("injected: the store could not save")
 
 func (l *lockedStore) delay() {
 	if l.delayPermille > 0 && l.delayMaxUs > 0 && mrand.Intn(1000) < l.delayPermille {
@@ -104,6 +109,9 @@ func (l *lockedStore) LoadSession(id string) (*sessions.Session, error) {
 
 func (l *lockedStore) SaveSession(id string, s *sessions.Session) error {
 	l.delay()
+	if l.saveFailPermille > 0 && mrand.Intn(1000) < l.saveFailPermille {
+		return errInjectedSave
+	}
 	l.mu.Lock()
 	defer l.mu.Unlock()
 	defer l.trim()
@@ -171,6 +179,7 @@ type concCfg struct {
 	directed                      string
 	iters                         int
 	delayPermille, delayMaxUs     int
+	saveFail                      int
 }
 
 const defaultMix = "set=5,get=5,del=2,getdel=4,login=1,loginx=1,logout=1,regen=1,user=1,lastaccess=1,expired=1,enc=1,dec=1,destroy=0"
@@ -194,6 +203,10 @@ func parseConc(path string) concCfg {
 		t := strings.Fields(line)
 		if len(t) == 3 && t[0] == "storedelay" {
 			c.delayPermille, c.delayMaxUs = int(atoi64(t[1])), int(atoi64(t[2]))
+			continue
+		}
+		if len(t) == 2 && t[0] == "savefail" {
+			c.saveFail = int(atoi64(t[1]))
 			continue
 		}
 		if len(t) != 2 {
@@ -1146,7 +1159,7 @@ func runConc(script, outPath string) {
 		cfg.cuid, cfg.purge, b2i(cfg.hist), qopt(cfg.directed), cfg.iters, cfg.delayPermille, cfg.delayMaxUs, runtime.GOMAXPROCS(0))
 	out.Flush()
 
-	h.store = &lockedStore{st: newStore(cfg.codec), delayPermille: cfg.delayPermille, delayMaxUs: cfg.delayMaxUs}
+	h.store = &lockedStore{st: newStore(cfg.codec), delayPermille: cfg.delayPermille, delayMaxUs: cfg.delayMaxUs, saveFailPermille: cfg.saveFail}
 	sessions.Persistence = h.store
 	sessions.MaxSessionCacheSize = cfg.cache
 	sessions.SessionIDExpiry = cfg.idExpiry
